@@ -83,7 +83,8 @@ check("C02", "exploration",
                        "erase_two_children_succ_deeper", "erase_root", "huge_tree", "huge_tree_taller_than_32"])
 check("C07", "exploration",
       [dict(world="heap", mode=7, variants=V_TREES, quick=60000, thorough=4000000),
-       dict(world="heap", mode=107, variants={"rel": 0.7, "dbg": 0.3}, quick=40, thorough=2000)],
+       dict(world="heap", mode=107, variants={"rel": 0.7, "dbg": 0.3}, quick=40, thorough=2000),
+       dict(world="heap", mode=108, variants={"rel": 1.0}, quick=2, thorough=16, min_mem_gib=8)],
       RULE_SEQ, ["src/heap.c", "src/common.c", "src/bintree.c", "include/cstl/heap.h"],
       required_probes=["push_to_2^k", "pop_from_2^k", "pop_empty", "swap", "heap_reached_256", "huge_heap", "huge_heap_2^16"])
 
@@ -177,8 +178,8 @@ check("C08", "exploration",
       [dict(world="map", mode=8, variants={"rel": 0.8, "asan": 0.2}, quick=60000, thorough=3600000)],
       RULE_SEQ + "; a quarter of the runs attach an allocation failure to some inserts",
       ["src/map.c", "src/rbtree.c", "src/bintree.c", "include/cstl/map.h"],
-      required_probes=["insert_new", "insert_existing", "alloc_fail_fired", "erase_present", "erase_absent", "erase_iterator", "find_present", "find_absent", "map_clear", "comparator_consults_another_map"],
-      assumptions=["erase by iterator is taken to be a pure unlink of the entry the iterator designates (as documented: no condition on the key): in a fraction of the runs the caller has already scrubbed the key object when it calls cstl_map_erase_iterator, and the entry must still go",
+      required_probes=["insert_new", "insert_existing", "alloc_fail_fired", "erase_present", "erase_absent", "erase_iterator", "find_present", "find_absent", "map_clear", "comparator_consults_another_map", "erase_iterator_held_across_other_erases", "insert_with_key_object_reused_after_failed_find"],
+      assumptions=["an iterator designates its entry for as long as that entry is in the map, whatever happens to other entries (iterators are held across other inserts and erases and then used for erase_iterator)", "erase by iterator is taken to be a pure unlink of the entry the iterator designates (as documented: no condition on the key): in a fraction of the runs the caller has already scrubbed the key object when it calls cstl_map_erase_iterator, and the entry must still go",
                    "comparison results are meaningful by sign only; the harness returns magnitudes from 1 to INT_MAX"])
 mtext("C08",
       "Seeded histories of insert (new key / existing key value carried by a different key object), find, erase by key, erase by iterator and clear against a dict model; "
@@ -227,7 +228,7 @@ mtext("C10",
       "DESIGN.md 4.C10")
 
 check("C14", "exploration",
-      [dict(world="array", mode=14, variants=V_ALLOC, quick=80000, thorough=8000000)],
+      [dict(world="array", mode=14, variants=V_ALLOC, quick=80000, thorough=50000000)],
       RULE_ALLOC + "; 2-4 array objects over up to 3-4 live buffers (internal and externally supplied)",
       ["src/array.c", "include/cstl/array.h", "src/memory.c"], stubs=ALLOC_STUBS,
       required_probes=["alloc_on_sliced_object", "set_on_sliced_object", "slice_in_place", "slice_beyond_own_length", "slice_abort", "at_abort", "unslice",
@@ -243,7 +244,7 @@ mtext("C14",
       "DESIGN.md 4.C14")
 
 check("C05", "exploration",
-      [dict(world="mem", mode=5, variants={"rel": 0.8, "asan": 0.2}, quick=100000, thorough=4000000)],
+      [dict(world="mem", mode=5, variants={"rel": 0.8, "asan": 0.2}, quick=100000, thorough=24000000)],
       "one evaluation = one seeded history over 4 shared, 3 weak, 3 unique and 2 guarded pointer objects and up to 3 live allocations (each with its own callback identity, private pointer and tag byte), "
       "with the clear-callback log and the sim heap's allocation events compared with the ownership model after every operation; distinct = distinct plan hash; non-trivial = at least two allocations were made",
       ["src/memory.c", "include/cstl/memory.h"],
@@ -281,8 +282,8 @@ mtext("C06",
 
 check("C11", "exploration",
       [dict(world="sort", mode=11, variants={"rel": 0.7, "asan": 0.3}, quick=60000, thorough=5000000),
-       dict(world="vector", mode=11, variants={"rel": 0.5, "asan": 0.5}, quick=30000, thorough=1500000),
-       dict(world="sort", mode=111, variants={"rel": 0.6, "asan": 0.4}, quick=200, thorough=6000)],
+       dict(world="vector", mode=11, variants={"rel": 0.7, "asan": 0.3}, quick=12000, thorough=1500000),
+       dict(world="sort", mode=111, variants={"rel": 0.6, "asan": 0.4}, quick=120, thorough=6000)],
       "one evaluation = one seeded plan: 1-3 rounds of {fill a raw array (patterns: random over 1..3000 values, sorted, reversed, constant, two-valued, organ-pipe, saw-tooth; lengths 0..8 / 0..64 / 0..4096), linear finds, optional reverse, "
       "1-2 sorts with a seeded selector (four named algorithms and four out-of-range values) and either cstl_swap or a checking swap callback, binary searches and finds on the result}; rand() is the simulator's (uniform, or bounded adversarial streaks of pivot-last values); "
       "distinct = distinct plan hash; non-trivial = the last array had >= 2 elements",
@@ -290,7 +291,8 @@ check("C11", "exploration",
       stubs=["comparison function: in 1/12 of the runs one sort is made against McIlroy's lazily deciding adversary (legal, consistent, forces the deepest recursion)", "rand() (seeded stream; sticky mode repeats 0, RAND_MAX, 720719, small integers in streaks of at most 8 draws followed by a uniform draw)"],
       required_probes=["selector_out_of_range", "rand_calls", "custom_swap_checked", "probe_present", "probe_absent", "single_element_probe", "reverse", "large_array", "few_distinct_values", "adversary_sort", "adversary_forced_quadratic", "vector_probe_present", "vector_probe_absent", "vector_sort_checked_swap"],
       assumptions=["apart from the pivot stream and the callbacks this is input generation; the exhaustive small-alphabet enumeration named in the property's quantifier is NOT done",
-                   "an unbounded adversarial rand() (constant forever) makes the randomised variant recurse without bound; excluded as outside rand()'s contract"])
+                   "an unbounded adversarial rand() (constant forever) makes the randomised variant recurse without bound; excluded as outside rand()'s contract",
+                   "with a caller's swap function every movement of an element goes through it (the documented purpose of the callback: the library cannot know what is inside an element); the harness therefore demands that the final arrangement is exactly what the sequence of swap calls implies, and may pass tmp = NULL to a swap function that ignores it"])
 mtext("C11",
       "Seeded arrays (element sizes 1,2,4,8,3,5,16,24; keys in the first 1-2 bytes, an identity in the rest so that lost/duplicated/torn elements show) sorted by every selector value; the output must be byte-for-byte a permutation of the input and non-decreasing; "
       "the array and the scratch element are separate sim-heap blocks whose canaries are the red zones (ASan in 30% of runs); every pointer handed to the comparison and (checking) swap callbacks must be an array element or the scratch slot; a comparison-count cap of 64*(n+16)^2 catches a partition that stops making progress. "
@@ -322,13 +324,13 @@ mtext("C15",
 
 V_C16 = {"rel": 0.7, "asan": 0.3}
 check("C16", "fault_enumeration",
-      [dict(world="map", mode=16, variants=V_C16, quick=500, thorough=60000),
-       dict(world="vector", mode=16, variants=V_C16, quick=500, thorough=60000),
-       dict(world="string", mode=16, variants=V_C16, quick=500, thorough=60000),
-       dict(world="hash", mode=16, variants=V_C16, quick=500, thorough=60000),
-       dict(world="mem", mode=16, variants=V_C16, quick=500, thorough=60000),
-       dict(world="array", mode=16, variants=V_C16, quick=500, thorough=60000)],
-      "for each seeded script (500 per world quick, 60000 thorough; no other faults): a fault-free dry run counts the library's allocation calls N, then the script is re-executed with EVERY single ordinal 1..N failing, EVERY suffix 'from k on everything fails', "
+      [dict(world="map", mode=16, variants=V_C16, quick=500, thorough=240000),
+       dict(world="vector", mode=16, variants=V_C16, quick=500, thorough=240000),
+       dict(world="string", mode=16, variants=V_C16, quick=500, thorough=240000),
+       dict(world="hash", mode=16, variants=V_C16, quick=500, thorough=240000),
+       dict(world="mem", mode=16, variants=V_C16, quick=500, thorough=240000),
+       dict(world="array", mode=16, variants=V_C16, quick=500, thorough=240000)],
+      "for each seeded script (500 per world quick, 240000 thorough; no other faults): a fault-free dry run counts the library's allocation calls N, then the script is re-executed with EVERY single ordinal 1..N failing, EVERY suffix 'from k on everything fails', "
       "EVERY pair (N <= 40, 400 seeded pairs above) and EVERY triple (N <= 12); each faulted execution runs to the end of the script (continued use after the failure) under the world's normal oracle, whose model predicts the documented failure mode from the allocator's own answer; "
       "evaluations = scripts + faulted executions; distinct = distinct scripts (plan hash); the placement space per script is enumerated, the scripts are sampled",
       ["src/map.c", "src/vector.c", "src/_string.c", "src/hash.c", "src/memory.c", "src/array.c"],
@@ -344,8 +346,8 @@ mtext("C16",
       "DESIGN.md 4.C16")
 
 check("C20", "fault_enumeration",
-      [dict(world="mem", mode=20, variants={"rel": 0.8, "asan": 0.2}, quick=40000, thorough=4000000),
-       dict(world="array", mode=20, variants={"rel": 0.8, "asan": 0.2}, quick=20000, thorough=2000000)],
+      [dict(world="mem", mode=20, variants={"rel": 0.8, "asan": 0.2}, quick=40000, thorough=24000000),
+       dict(world="array", mode=20, variants={"rel": 0.8, "asan": 0.2}, quick=20000, thorough=12000000)],
       "one evaluation = one seeded history (which produces the object states: empty / owning / shared with others / weak-only / array full view / slice / external) followed by one injected fault: an object is duplicated (memcpy, original kept) or relocated (memcpy, original scrubbed) "
       "and one public function is applied with the stray copy in one argument position; the (function x position x state x duplicate/relocate) cell is part of the violation key and of the fired-count probes; distinct = distinct plan hash",
       ["include/cstl/memory.h", "src/memory.c", "src/array.c", "include/cstl/array.h"],
